@@ -186,8 +186,10 @@ def batch_evaluate_function(
                     pool.map(func_wrapper, array_split_chunksize(x, chunksize))
                 )
             else:
+                # The number of processes is unknown for some user-specified
+                # pools, in which case the inputs are not split
                 out = np.concatenate(
-                    pool.map(func_wrapper, np.array_split(x, n_pool))
+                    pool.map(func_wrapper, np.array_split(x, n_pool or 1))
                 )
         else:
             out = np.array(pool.map(func_wrapper, x)).flatten()
